@@ -17,8 +17,43 @@ def jobs_for(kind, n, seed):
     gk = dict(p_cmd=0.2, cmds=['fail', 'succeed', 'noop', 'pause', 'pause'])
     if kind == 'plain':
         return ec.random_jobs(rnd, n, schedulers=('default', 'legacy'), label='plain') + ec.catalogue_jobs(schedulers=('default', 'legacy'), seeds=(1,))
+    if kind == 'items':
+        gk = dict(partial_joins=True, p_join=0.7, p_items=0.45, p_cmd=0.1, p_err=0.3, cmds=['fail', 'succeed', 'noop', 'pause'])
+        js = ec.random_jobs(rnd, n, schedulers=('default', 'legacy'), label=kind, gen_kw=gk)
+        for k, j in enumerate(js):
+            at = rnd.randint(1, 25)
+            if k % 4 == 1:
+                j['ops'] = [dict(at=at, op='pause'), dict(at=at + rnd.randint(1, 12), op='resume')]
+            elif k % 4 == 2:
+                j['dups'] = 2
+            elif k % 8 == 3:
+                j['ops'] = [dict(at=at, op='stop', state=rnd.choice(['ERROR', 'CANCELLED', 'SUCCESS']))]
+        return js
+    if kind == 'rerun':
+        gk = dict(partial_joins=True, p_join=0.7, p_items=(0.2 if seed % 2 else 0.0), p_retry=0.1, p_cmd=0.05, p_err=0.45)
+        js = ec.random_jobs(rnd, n, schedulers=('default', 'legacy'), label=kind, gen_kw=gk)
+        for k, j in enumerate(js):
+            P = j['prog']
+            for tag, oc in list(P.oracle.items()):
+                if isinstance(oc, list) and oc and oc[-1] == 'err':
+                    P.oracle[tag] = oc + [rnd.choice(['ok', 'ok', 'err'])]
+                elif isinstance(oc, dict):
+                    P.oracle[tag] = {i: (v + [rnd.choice(['ok', 'ok', 'err'])] if v[-1] == 'err' else v) for i, v in oc.items()}
+            c = k % 5
+            if c == 0:
+                j['ops'] = [dict(at=300, op='rerun', reset=True, pick=k)]
+            elif c == 1:
+                j['ops'] = [dict(at=300, op='rerun', reset=False, pick=k)]
+            elif c == 2:
+                j['ops'] = [dict(at=300, op='skip', pick=k)]
+            elif c == 3:
+                j['ops'] = [dict(at=rnd.randint(8, 40), op='rerun', reset=bool(k % 2), pick=k), dict(at=300, op='rerun', reset=True, pick=k + 1)]
+            else:
+                j['ops'] = [dict(at=300, op='rerun', reset=True, pick=k), dict(rel=rnd.randint(0, 3), op='pause'), dict(at=10 ** 6, op='resume')]
+            j['max_steps'] = 900
+        return js
     if kind in ('retry', 'policy'):
-        gk = dict(partial_joins=False, p_join=1.0, p_retry=0.35, p_policy=(0.4 if kind == 'policy' else 0.0), p_cmd=0.02, p_err=0.4)
+        gk = dict(partial_joins=False, p_join=1.0, p_retry=0.35, p_policy=(0.4 if kind == 'policy' else 0.0), p_cmd=0.02, p_err=0.4, p_retry_expr=0.5)
         js = ec.random_jobs(rnd, n, schedulers=('default', 'legacy'), label=kind, gen_kw=gk)
         for k, j in enumerate(js):
             if k % 3 == 0:
@@ -63,9 +98,9 @@ def show(t, k, ctx=6):
     for w in o['wf']:
         print('  WF', w['sid'], w['state'], 'backlog', w['backlog'])
     for x in o['tk']:
-        print('  TK', x['name'], x['state'], x['next'], 'proc', x['processed'], 'eh', x['errHandled'], 'retryNo', x.get('retryNo'))
+        print('  TK', x['name'], x['state'], x['next'], 'proc', x['processed'], 'eh', x['errHandled'], 'retryNo', x.get('retryNo'), 'wi', x.get('wiCount'), x.get('wiCap'))
     for a in o['ax']:
-        print('  AX', a['sid'], a['state'])
+        print('  AX', a['sid'], a['state'], 'acc', a['accepted'])
     print('  pend', o['pend'])
 
 
@@ -99,10 +134,10 @@ def main():
         show(t, k)
         acc2, r2, _, _ = engmodel.strict_validate(d, [t], tag='dbg', dump=True)
         out = open(os.path.join(d, 'strict_dbg_0.out')).read()
-        sts = [m for m in re.finditer(r'<<"state", 1, (\d+), ', out) if int(m.group(1)) == k]
+        sts = [m for m in re.finditer(r'<<\s*"state",\s*1,\s*(\d+),', out) if int(m.group(1)) == k]
         print('MODEL states at position %d: %d' % (k, len(sts)))
         for m in sts[:3]:
-            j = out.find('<<"state"', m.end())
+            j = (re.search(r'<<\s*"state"', out[m.end():]).start() + m.end()) if re.search(r'<<\s*"state"', out[m.end():]) else -1
             print(out[m.start():j if j > 0 else m.start() + 3000][:3000])
         json.dump(t, open(os.path.join(d, 'rejected.json'), 'w'))
     return 0
